@@ -96,6 +96,8 @@ def gen_jobs(rng, quick):
         ns = list(range(1, 131 if quick else 601))
         rng.shuffle(ns)
         ns += [256, 257, 258, 257, 300, 301, 300, 302, 299, 255, 254, 256] + ([] if quick else [600, 601, 599, 512, 513, 511, 1000, 1001])
+        if size == 4096:     # the largest Aztec symbols carry more than a thousand check words
+            ns += [1023, 1024, 1025, 1026] + ([1500] if quick else [1100, 1500, 1501, 2000, 2048, 2049, 3000])
         for n in ns:
             ln = rng.choice([1, 2, 3])
             data = [rng.randrange(1, size) for _ in range(ln)]
